@@ -5,6 +5,7 @@ use serde_json::Value;
 pub mod c11;
 pub mod c12;
 pub mod c13;
+pub mod c15;
 pub mod c16;
 pub mod c18;
 pub mod statsgen;
@@ -21,6 +22,7 @@ pub fn run(id: &str, ctx: &Ctx) -> bool {
         "C11" => c11::run(ctx),
         "C12" => c12::run(ctx),
         "C13" => c13::run(ctx),
+        "C15" => c15::run(ctx),
         "C16" => c16::run(ctx),
         "C18" => c18::run(ctx),
         _ => return false,
@@ -33,6 +35,7 @@ pub fn replay(id: &str, ctx: &Ctx, case: &Value) -> Option<()> {
         "C11" => c11::check_case(ctx, case),
         "C12" => c12::check_case(ctx, case),
         "C13" => c13::check_case(ctx, case),
+        "C15" => c15::check_case(ctx, case),
         "C16" => c16::check_case(ctx, case),
         "C18" => c18::check_case(ctx, case),
         _ => return None,
